@@ -99,6 +99,8 @@ structure State where
   txq               : List Pdu             -- committed, not yet transmitted
   inflight          : Bool                 -- last transmitted PDU not yet acknowledged
   ring              : List Event           -- connection_callbacks::events_ (ring< 4 >)
+  dropped           : Nat                  -- ghost: number of events `try_push` refused (never read)
+  early             : Bool                 -- ghost: disconnect() was called in state `connecting` (never read)
 deriving Repr
 
 -- src: link_layer::supported_features
@@ -113,7 +115,7 @@ def init (c : Cfg) : State :=
     proposed := [0, 0, 0, 0], phyReqPending := false, phyReqTx := 0, phyReqRx := 0,
     procTimeout := 0, interval := 0, connTimeout := 0, timeSince := 0, evCounter := 0,
     deferred := none, deferredInstant := 0, terminationSent := false, stopped := false,
-    reason := 0x08, rxq := [], txq := [], inflight := false, ring := [] }
+    reason := 0x08, rxq := [], txq := [], inflight := false, ring := [], dropped := 0, early := false }
 
 def rd8 (b : Bytes) (i : Nat) : UInt8 := b.getD i 0
 -- src: bluetoe::details::read_16bit / read_64bit
@@ -161,7 +163,7 @@ def commit (s : State) (p : Pdu) : State :=
 
 -- src: connection_callbacks::* → events_.try_push( data ) with the result ignored (ring< 4 >)
 def push (s : State) (e : Event) : State :=
-  if s.ring.length < 4 then { s with ring := s.ring ++ [e] } else s
+  if s.ring.length < 4 then { s with ring := s.ring ++ [e] } else { s with dropped := s.dropped + 1 }
 
 -- src: link_layer_security_impl::reset_encryption (with fix 02). Without security support
 --      (link_layer_no_security_impl) the function is empty and `sec` is `Sec.init` all the time,
@@ -514,7 +516,8 @@ def step (s : State) : Op → State × Out
     -- src: link_layer::disconnect( reason )
     if connectedLike s then
       (resetEncryption { s with phase := .disconnecting, terminationSent := false, reason := reason,
-                                procTimeout := s.connTimeout }, { r := some true })
+                                procTimeout := s.connTimeout,
+                                early := s.early || decide (s.phase = .connecting) }, { r := some true })
     else (s, { bad := true })
   | .apiVersion =>
     -- src: link_layer::remote_versions_request
